@@ -50,6 +50,9 @@ type EP struct {
 	Dirty      ref.Tx   `json:"dirty"`      // what the populated receivers hold before they decode
 	DirtyList  int      `json:"dirty_list"` // how many such transactions the populated list holds
 	Chunks     []int    `json:"chunks"`
+	// round 9: behaviours (empty reads, odd read sizes, the last bytes together with io.EOF, an
+	// io.ByteReader; none that fails) further readers play over the same bytes in parts C, D, E
+	Scripts []gen.C09Script `json:"scripts,omitempty"`
 }
 
 func expand(m ref.Tx, repIn, repOut int) ref.Tx {
@@ -122,6 +125,11 @@ func checkEP(ctx *pbt.Ctx, c EP) error {
 	}
 	if validModel(c.Dirty) != nil {
 		ctx.Discard("invalid model in replay file")
+		return nil
+	}
+	scripts, sok := quietScripts(c.Scripts)
+	if !sok {
+		ctx.Discard("invalid case: scripts")
 		return nil
 	}
 	var models []ref.Tx
@@ -344,13 +352,14 @@ func checkEP(ctx *pbt.Ctx, c EP) error {
 	}
 
 	// ---- C: (*Tx).ReadFrom, fresh and populated receivers, two kinds of reader ----
-	type rk struct {
-		name string
-		mk   func(b []byte) io.Reader
+	kinds := []readerKind{
+		{"bytes.Reader", func(b []byte) io.Reader { return bytes.NewReader(b) }, nil},
+		{"chunked reader", func(b []byte) io.Reader { return &chunkReader{b: b, chunks: c.Chunks} }, nil},
 	}
-	kinds := []rk{
-		{"bytes.Reader", func(b []byte) io.Reader { return bytes.NewReader(b) }},
-		{"chunked reader", func(b []byte) io.Reader { return &chunkReader{b: b, chunks: c.Chunks} }},
+	if elems <= 2000 && nTx <= 600 { // the large replicated shapes keep to the two kinds above
+		for _, s := range scripts {
+			kinds = append(kinds, scriptedKind(ctx, s))
+		}
 	}
 	for _, k := range kinds {
 		for _, populated := range []bool{false, true} {
@@ -601,6 +610,8 @@ func checkElements(ctx *pbt.Ctx, c EP) error {
 	if len(fmts) == 0 {
 		fmts = []bool{true, false, false, true}
 	}
+	scripts, _ := quietScripts(c.Scripts)
+	nsrc := 0
 	trail := []byte(c.Trailing)
 	reusedIn := &bt.Input{}
 	var keptIn [][]byte
@@ -617,8 +628,9 @@ func checkElements(ctx *pbt.Ctx, c EP) error {
 				if reuse {
 					recv = reusedIn
 				}
-				r := bytes.NewReader(append(append([]byte{}, enc...), trail...))
-				what := fmt.Sprintf("Input.ReadFrom%s (reused receiver=%v), input %d", map[bool]string{true: "Extended", false: ""}[ext], reuse, i)
+				nsrc++
+				r, left, rname := source(append(append([]byte{}, enc...), trail...), scripts, nsrc)
+				what := fmt.Sprintf("Input.ReadFrom%s (reused receiver=%v), input %d, on %s", map[bool]string{true: "Extended", false: ""}[ext], reuse, i, rname)
 				var n int64
 				var err error
 				if ext {
@@ -629,8 +641,8 @@ func checkElements(ctx *pbt.Ctx, c EP) error {
 				if err != nil {
 					return fmt.Errorf("%s rejected the reference encoding %s: %v", what, head(enc), err)
 				}
-				if n != int64(len(enc)) || r.Len() != len(trail) {
-					return fmt.Errorf("%s reported %d bytes and left %d in the reader; the input has %d bytes and %d follow it", what, n, r.Len(), len(enc), len(trail))
+				if n != int64(len(enc)) || left() != len(trail) {
+					return fmt.Errorf("%s reported %d bytes and left %d in the reader; the input has %d bytes and %d follow it", what, n, left(), len(enc), len(trail))
 				}
 				if err := inputIs(what, recv, in, ext); err != nil {
 					return err
@@ -672,14 +684,15 @@ func checkElements(ctx *pbt.Ctx, c EP) error {
 			if reuse {
 				recv = reusedOut
 			}
-			r := bytes.NewReader(append(append([]byte{}, enc...), trail...))
-			what := fmt.Sprintf("Output.ReadFrom (reused receiver=%v), output %d", reuse, i)
+			nsrc++
+			r, left, rname := source(append(append([]byte{}, enc...), trail...), scripts, nsrc)
+			what := fmt.Sprintf("Output.ReadFrom (reused receiver=%v), output %d, on %s", reuse, i, rname)
 			n, err := recv.ReadFrom(r)
 			if err != nil {
 				return fmt.Errorf("%s rejected the reference encoding %s: %v", what, head(enc), err)
 			}
-			if n != int64(len(enc)) || r.Len() != len(trail) {
-				return fmt.Errorf("%s reported %d bytes and left %d in the reader; the output has %d bytes and %d follow it", what, n, r.Len(), len(enc), len(trail))
+			if n != int64(len(enc)) || left() != len(trail) {
+				return fmt.Errorf("%s reported %d bytes and left %d in the reader; the output has %d bytes and %d follow it", what, n, left(), len(enc), len(trail))
 			}
 			if recv.Satoshis != o.Sats || recv.LockingScript == nil || !bytes.Equal(*recv.LockingScript, o.Script) {
 				return fmt.Errorf("%s: decoded value %d / script differ from the encoded %d / %s", what, recv.Satoshis, o.Sats, head(o.Script))
@@ -929,6 +942,14 @@ func genEP(t *rapid.T) EP {
 	fix(&c.Dirty)
 	c.DirtyList = rapid.SampledFrom([]int{0, 1, 1, 2, 3, 5}).Draw(t, "dirty_list")
 	c.Chunks = rapid.SliceOfN(rapid.IntRange(1, 40), 1, 6).Draw(t, "chunks")
+	span := 0
+	for i, m := range c.Txs {
+		span += len(ref.Encode(m, c.Ext[i]))
+	}
+	if rapid.Bool().Draw(t, "script_near") && span > 120 {
+		span = 120 // offsets inside the first elements (part E decodes them one by one)
+	}
+	c.Scripts = []gen.C09Script{gen.C09GenScript(t, span, false)}
 	return c
 }
 
